@@ -64,7 +64,7 @@ func VerifC18LexPositions() {
 	}
 }
 
-var c18Seps = []string{" ", "\n", " # c\n", " /* c */ ", " /* c */\n", "\n/* c\n c */\n", " /* c\n */ ", "\n\n", "\t\n  ", " # a # b\n", "/**/", "\n# c\n# d\n"}
+var c18Seps = []string{" ", "\n", " # c\n", " /* c */ ", " /* c */\n", "\n/* c\n c */\n", " /* c\n */ ", "\n\n", "\t\n  ", " # a # b\n", "/**/", "\n# c\n# d\n", "/*\n*/", " /*\n c */ ", "/*\n\n*/\n", "/*\r\n*/", "\r\n"}
 
 func c18Newlines(s string) int {
 	n := 0
